@@ -138,6 +138,32 @@ def jumpiRule (s : IState) : Done :=
       if c ≠ 0 then jumpTo s2 t else .next s2
     | _ => .halt .StackUnderflow [] (charge (adv s) GasCalc.HIGH)
 
+/-! ## storage reads: the instruction asks the host one question and continues from the answer -/
+
+/-- what SLOAD does with the host's answer `r` on the state `s1` left after the key was read: `r.word` replaces the
+key on the stack, the gas is `sloadCost` of the fork and of the answer's cold flag (EIP-2929: 2100 cold / 100 warm;
+800 from Istanbul, 200 from Tangerine Whistle, 50 before) -/
+def sloadAfter (s1 : IState) (rest : List Nat) (r : HostResp) : Done :=
+  if !r.ok then .halt .FatalExternalError [] s1
+  else if s1.gas.remaining < GasCalc.sloadCost s1.spec r.isCold then .halt .OutOfGas [] s1
+  else .next { charge s1 (GasCalc.sloadCost s1.spec r.isCold) with stack := (r.word :: rest).reverse }
+
+/-- SLOAD: δ = 1, α = 1; asks the host for the slot of the executing account -/
+def sloadRule (s : IState) : Outcome :=
+  match s.stack.reverse with
+  | key :: rest => .host (.sload s.target key) (sloadAfter (adv s) rest)
+  | [] => .halt .StackUnderflow [] (adv s)
+
+/-- TLOAD (EIP-1153): δ = 1, α = 1, 100 gas, from Cancun -/
+def tloadRule (s : IState) : Outcome :=
+  if !enabled s.spec GasCalc.SpecId.CANCUN then .halt .NotActivated [] (adv s)
+  else if s.gas.remaining < GasCalc.WARM_STORAGE_READ_COST then .halt .OutOfGas [] (adv s)
+  else match s.stack.reverse with
+    | key :: rest =>
+      .host (.tload s.target key) (fun r =>
+        .next { charge (adv s) GasCalc.WARM_STORAGE_READ_COST with stack := (r.word :: rest).reverse })
+    | [] => .halt .StackUnderflow [] (charge (adv s) GasCalc.WARM_STORAGE_READ_COST)
+
 /-! ## the table of word operations -/
 
 inductive WordShape
